@@ -149,7 +149,9 @@ def run(ctx):
     ok, log = ctx.coq_make(["C10/Cases.vo"])
     if not ok:
         ctx.broken("coq-build:C10/Cases.vo", log[-2000:])
+    ctx.log("proofs audited: %d/%d" % (ctx.discharged, ctx.obligations))
     hx = ctx.go_build("c10")
+    ctx.log("harness built")
     quick = ctx.quick()
     nrand = 150 if quick else 2500
     budget = 2600 if quick else 60000     # Coq-evaluated cases per representation
